@@ -37,7 +37,16 @@ fn cstr_errs(cs: &[&CharacterString]) -> u32 {
     for c in cs {
         fmt_specs(*c);
     }
-    cs.iter().filter(|c| String::try_from((**c).clone()).is_err()).count() as u32
+    cs.iter()
+        .filter(|c| match String::try_from((**c).clone()) {
+            Ok(_) => false,
+            Err(e) => {
+                // an error that is returned is going to be logged: it must format
+                fmt_specs(&e);
+                true
+            }
+        })
+        .count() as u32
 }
 
 fn observe_rr(rr: &ResourceRecord, qs: &[Question], errs: &mut u32) {
@@ -61,10 +70,12 @@ fn observe_rr(rr: &ResourceRecord, qs: &[Question], errs: &mut u32) {
     match &rr.rdata {
         RData::TXT(t) => {
             let _ = t.attributes();
-            if t.clone().long_attributes().is_err() {
+            if let Err(e) = t.clone().long_attributes() {
+                fmt_specs(&e);
                 *errs += 1;
             }
-            if String::try_from(t.clone()).is_err() {
+            if let Err(e) = String::try_from(t.clone()) {
+                fmt_specs(&e);
                 *errs += 1;
             }
         }
@@ -299,11 +310,31 @@ pub fn run_eqhash(args: &[&str]) -> String {
     let mut t = Toks { t: &args[1..], p: 0 };
     match args[0] {
         "N" => {
-            let (a, b) = match (t.name(), t.name()) {
-                (Some(a), Some(b)) if t.done() => (make_name(&a), make_name(&b)),
+            let (la, lb) = match (t.name(), t.name()) {
+                (Some(a), Some(b)) if t.done() => (a, b),
                 _ => return "BADCASE".into(),
             };
-            format!("{} {}", b01(a == b), b01(stream(&a) == stream(&b)))
+            let (a, b) = (make_name(&la), make_name(&lb));
+            // the same two names once more, assembled from labels that BORROW from one buffer; where the two names have the same
+            // bytes at the same label index they borrow the very same slice (as labels cloned out of one parsed name do)
+            let mut arena: Vec<u8> = Vec::new();
+            let mut spans: Vec<(usize, usize)> = Vec::new();
+            for l in la.iter().chain(lb.iter()) {
+                spans.push((arena.len(), l.len()));
+                arena.extend_from_slice(l);
+            }
+            let slice = |k: usize| &arena[spans[k].0..spans[k].0 + spans[k].1];
+            let xa: Vec<simple_dns::Label> = (0..la.len()).map(|i| simple_dns::Label::new_unchecked(slice(i))).collect();
+            let xb: Vec<simple_dns::Label> = (0..lb.len())
+                .map(|i| if i < la.len() && la[i] == lb[i] { simple_dns::Label::new_unchecked(slice(i)) } else { simple_dns::Label::new_unchecked(slice(la.len() + i)) })
+                .collect();
+            let (ba, bb) = (simple_dns::Name::new_with_labels(&xa), simple_dns::Name::new_with_labels(&xb));
+            let (e1, h1) = (a == b, stream(&a) == stream(&b));
+            let (e2, h2) = (ba == bb, stream(&ba) == stream(&bb));
+            if e1 != e2 || h1 != h2 || (ba == a) != true || (bb == b) != true {
+                return format!("DIFF owned {} {} borrowed {} {}", b01(e1), b01(h1), b01(e2), b01(h2));
+            }
+            format!("{} {}", b01(e1), b01(h1))
         }
         "R" => {
             let (a, b) = match (read_rr(&mut t), read_rr(&mut t)) {
